@@ -80,10 +80,10 @@ PROPS = {
         "design_ref": "DESIGN.md section 6 C01, section 4",
         "jobs": [
             {"unit": "c01"},
-            {"unit": "c01", "variant": "native", "tiers": ["thorough"]},
-            {"unit": "c01", "variant": "ndebug", "tiers": ["thorough"]},
-            {"unit": "c01", "variant": "clang", "tiers": ["thorough"]},
-            {"unit": "c01", "variant": "asan", "tiers": ["thorough"], "args": ["--scale", "0.05"],
+            {"unit": "c01", "variant": "native", "tiers": ["thorough"], "args": ["--scale", "0.2"]},
+            {"unit": "c01", "variant": "ndebug", "tiers": ["thorough"], "args": ["--scale", "0.2"]},
+            {"unit": "c01", "variant": "clang", "tiers": ["thorough"], "args": ["--scale", "0.2"]},
+            {"unit": "c01", "variant": "asan", "tiers": ["thorough"], "args": ["--scale", "0.01"],
              "env": {"ASAN_OPTIONS": "abort_on_error=0:detect_leaks=0", "UBSAN_OPTIONS": "print_stacktrace=0"}},
         ],
         "rule": "each evaluation = one lane of one op call compared bit-exactly with a 128-bit integer model; operands per lane drawn independently from "
